@@ -14,10 +14,12 @@ CFG = dict(
           "both directions of every non-aborted stream call are accepted: the client's envelopes satisfy the server theorem's hypothesis); C06_trailer_present (every stream handler that has "
           "returned has handed a trailer of its id to the writer - then written, refused by the transport or in the Write call - unless its context was done when it offered it: the "
           "caller's reset had been read, or the connection's context was done; the handler's OWN deadline - finding trailer-lost-on-handler-deadline - is outside the model, which has no "
-          "GRPC-Timeout). Not proved, monitor only: the unary response shape (needs a hypothesis on unary handler programs: a reply or an error). "
+          "GRPC-Timeout); C06_server_unary (for an id on which the peer sent at most one envelope, a unary-method request, the server writes at most one envelope, with header "
+          "and trailer, no reset, unary method: assembly of sv's ServerUnary / ServerRoute / ServerWriter lemmas). Not proved, monitor only: body-or-non-OK-status of the unary "
+          "response (needs a hypothesis on unary handler programs: a reply or an error). "
           "The client model is tied lock-step to the real client on every run (all orders of internal rules) and the "
           "automata judge every per-id per-direction projection of every wire history of the rigs (real client, real server, end to end).",
-    props="Props/C06.v", theorems=["C06_client", "C06_client_refuted", "C06_server_origin", "C06_server_stream", "C06_reset_order", "C06_sys", "C06_trailer_present"],
+    props="Props/C06.v", theorems=["C06_client", "C06_client_refuted", "C06_server_origin", "C06_server_stream", "C06_reset_order", "C06_sys", "C06_trailer_present", "C06_server_unary"],
     imports=["Model.Client", "Check.ClientC", "Model.Protocol", "Check.CwC", "Check.C06c"],
     case_type="cwcase", find_bad_from="find_bad_from", go_tags="cw",
     rigs=[dict(test="TestC06", timeout_quick=600, timeout_thorough=2400)],
@@ -39,6 +41,6 @@ CFG = dict(
          "proto_s2c, plus trailer-presence, ids-received, route swap and reset-answers-a-body over the step-indexed histories",
     assumptions=["payloads, metadata, methods and names are opaque tokens for the client and server (checked by tokenised round trips in the rig)",
                  "the transport checks the context of a Write (Endpoint.CheckCtx): a Write with a cancelled context fails (hypothesis transport_checks_ctx of DESIGN.md)",
-                 "one observable is canonicalised in the rig: after an operation of a call failed with a transport write error, \"respChan closed\" and Canceled are one class "
+                 "one observable is canonicalised in the rig: after a SendMsg / CloseSend of a call failed with a transport write error or in the codec (both exits run teardown(false)), \"respChan closed\" and Canceled are one class "
                  "(clientStream.teardown unregisters before it cancels; the stream loop may wake in between; Client.v's teardown is atomic; breaks none of C06/C07/C11)",
                  "quiescence = testing/synctest's durable blocking; the server half of the run is judged by the predicates only (its model is tied by ./check SV)"])
